@@ -1125,7 +1125,31 @@ func (m *Machine) compare(n ast.Node, op token.Token, l, r Value) Value {
 			}
 		}
 		bv.Signed = av.Signed
-		// equality against a constant without an ordering decision: x == c
+		// interval decision first: it settles `b < 0x80` for a byte whose top bit is known without looking at the others
+		if av.W() <= 64 {
+			alo, ahi := bitdom.Range(av)
+			blo, bhi := bitdom.Range(bv)
+			switch op {
+			case token.LSS, token.GEQ:
+				if ahi < blo {
+					return Bool{bitdom.Const(op == token.LSS)}
+				}
+				if alo >= bhi {
+					return Bool{bitdom.Const(op == token.GEQ)}
+				}
+			case token.GTR, token.LEQ:
+				if alo > bhi {
+					return Bool{bitdom.Const(op == token.GTR)}
+				}
+				if ahi <= blo {
+					return Bool{bitdom.Const(op == token.LEQ)}
+				}
+			case token.EQL, token.NEQ:
+				if ahi < blo || alo > bhi {
+					return Bool{bitdom.Const(op == token.NEQ)}
+				}
+			}
+		}
 		res, decided, split := bitdom.Cmp(av, bv)
 		if !decided {
 			if split.Top {
@@ -1288,6 +1312,31 @@ func (m *Machine) call(fr *frame, c *ast.CallExpr) []Value {
 			return []Value{Bytes{Buf: nb, Len: b.Len, Cap: b.Len}}
 		}
 		m.abort(c, "Clone of %T is not modelled", args[0])
+	case "encoding/binary.PutUvarint":
+		// the standard loop: for x >= 0x80 { buf[i] = byte(x) | 0x80; x >>= 7; i++ }; buf[i] = byte(x); return i + 1
+		buf, ok1 := args[0].(Bytes)
+		x, ok2 := args[1].(Int)
+		if !ok1 || !ok2 {
+			m.abort(c, "PutUvarint on %T, %T", args[0], args[1])
+		}
+		v := x.V.Convert(64, false)
+		i := 0
+		for {
+			ge := m.compare(c, token.GEQ, Int{v}, ConstInt(64, false, 0x80)).(Bool)
+			cont, _ := ge.B.IsConst()
+			if i >= buf.Len {
+				m.abort(c, "index out of range [%d] with length %d (binary.PutUvarint)", i, buf.Len)
+			}
+			b := v.Convert(8, false)
+			if !cont {
+				buf.Buf.B[buf.Off+i] = b
+				return []Value{ConstInt(64, true, uint64(i+1))}
+			}
+			b.Bits[7] = bitdom.Const(true)
+			buf.Buf.B[buf.Off+i] = b
+			v = bitdom.Shr(v, 7)
+			i++
+		}
 	case "math.Float32bits", "math.Float64bits":
 		f, ok := args[0].(Float)
 		if !ok {
@@ -1523,7 +1572,14 @@ func (m *Machine) builtin(fr *frame, c *ast.CallExpr, name string) []Value {
 		m.abort(c, "append to %T is not modelled", base)
 	case "copy":
 		dst, ok1 := m.eval(fr, c.Args[0]).(Bytes)
-		src, ok2 := m.eval(fr, c.Args[1]).(Bytes)
+		sv := m.eval(fr, c.Args[1])
+		src, ok2 := sv.(Bytes)
+		if bs, isStr := sv.(ByteStr); isStr { // copy(dst, s) from a string
+			src, ok2 = bs.B, true
+		}
+		if st, isStr := sv.(Str); isStr && st.S == "" {
+			src, ok2 = Bytes{Buf: &Buffer{}}, true
+		}
 		if !ok1 || !ok2 {
 			m.abort(c, "copy on non-byte slices is not modelled")
 		}
